@@ -150,6 +150,21 @@ struct LiveConn {
     conn: Conn,
 }
 
+/// property this process checks (set once in main): a failing clause that does not belong to it must not end the
+/// history, or it would mask a later failure of a clause that does (one change often breaks several clauses)
+static FOCUS: std::sync::OnceLock<String> = std::sync::OnceLock::new();
+static OTHER_CLAUSE_FAILURES: std::sync::atomic::AtomicU64 = std::sync::atomic::AtomicU64::new(0);
+
+macro_rules! bail {
+    ($f:expr) => {{
+        let f = $f;
+        if relevant(FOCUS.get().map(|s| s.as_str()).unwrap_or(""), f.clause) {
+            return Err(f);
+        }
+        OTHER_CLAUSE_FAILURES.fetch_add(1, std::sync::atomic::Ordering::Relaxed);
+    }};
+}
+
 fn run_history(h: &History, shape: &mut Shape) -> Result<u64, Fail> {
     match catch_unwind(AssertUnwindSafe(|| run_history_inner(h, shape))) {
         Ok(r) => r,
@@ -304,7 +319,7 @@ fn run_history_inner(h: &History, shape: &mut Shape) -> Result<u64, Fail> {
                         }
                         if !out.is_empty() {
                             let sig = if owner.key == me.key && owner.worker != me.worker { "ws.ownership.connection_id_collision" } else { "ws.ownership.foreign_announce_answered" };
-                            return Err(fail("ownership", sig, format!("announce with peer id owned by {:?} sent from {:?} produced {} message(s); it must be ignored", owner, me, out.len())));
+                            bail!(fail("ownership", sig, format!("announce with peer id owned by {:?} sent from {:?} produced {} message(s); it must be ignored", owner, me, out.len())));
                         }
                     }
                     AnnounceOutcome::Handled { stopped: _, complete, incomplete, others, offers_expected } => {
@@ -318,10 +333,10 @@ fn run_history_inner(h: &History, shape: &mut Shape) -> Result<u64, Fail> {
                                 OutMessage::AnnounceResponse(r) => {
                                     replies += 1;
                                     if conn_of_meta(m) != me {
-                                        return Err(fail("routing", "ws.swarm.announce.reply_misaddressed", format!("announce reply addressed to {:?}, sender is {:?}", conn_of_meta(m), me)));
+                                        bail!(fail("routing", "ws.swarm.announce.reply_misaddressed", format!("announce reply addressed to {:?}, sender is {:?}", conn_of_meta(m), me)));
                                     }
                                     if r.info_hash.0 != hash || r.complete != complete || r.incomplete != incomplete {
-                                        return Err(fail("counts", "ws.swarm.announce.counts", format!("announce reply complete/incomplete {}/{} reference {}/{} (announcer included)", r.complete, r.incomplete, complete, incomplete)));
+                                        bail!(fail("counts", "ws.swarm.announce.counts", format!("announce reply complete/incomplete {}/{} reference {}/{} (announcer included)", r.complete, r.incomplete, complete, incomplete)));
                                     }
                                 }
                                 OutMessage::OfferOutMessage(o) => {
@@ -332,7 +347,7 @@ fn run_history_inner(h: &History, shape: &mut Shape) -> Result<u64, Fail> {
                                     };
                                     let sent = &offer_list.as_ref().unwrap()[idx];
                                     if o.offer_id != sent.offer_id || o.peer_id.0 != peer || o.info_hash.0 != hash {
-                                        return Err(fail("offers", "ws.swarm.offer.mislabelled", format!("forwarded offer {} has wrong offer id / sender peer id / info hash", idx)));
+                                        bail!(fail("offers", "ws.swarm.offer.mislabelled", format!("forwarded offer {} has wrong offer id / sender peer id / info hash", idx)));
                                     }
                                     offers_seen.push((conn_of_meta(m), idx));
                                 }
@@ -342,22 +357,22 @@ fn run_history_inner(h: &History, shape: &mut Shape) -> Result<u64, Fail> {
                             }
                         }
                         if replies != 1 {
-                            return Err(fail("reply", "ws.swarm.announce.reply_count", format!("{} announce replies for one handled announce", replies)));
+                            bail!(fail("reply", "ws.swarm.announce.reply_count", format!("{} announce replies for one handled announce", replies)));
                         }
                         // offers: min(k, max_offers, others), distinct receivers among stored others, i-th offer forwarded i-th
                         if offers_seen.len() != offers_expected {
-                            return Err(fail("offers", "ws.swarm.offer.count", format!("{} offers forwarded, expected min(sent {:?}, max_offers {}, others {}) = {}", offers_seen.len(), offers.as_ref().map(|v| v.len()), h.max_offers, others.len(), offers_expected)));
+                            bail!(fail("offers", "ws.swarm.offer.count", format!("{} offers forwarded, expected min(sent {:?}, max_offers {}, others {}) = {}", offers_seen.len(), offers.as_ref().map(|v| v.len()), h.max_offers, others.len(), offers_expected)));
                         }
                         let mut used: BTreeSet<[u8; 20]> = BTreeSet::new();
                         for (k, (rc, idx)) in offers_seen.iter().enumerate() {
                             if *idx != k {
-                                return Err(fail("offers", "ws.swarm.offer.order", format!("{}-th forwarded offer is offer #{} of the request", k, idx)));
+                                bail!(fail("offers", "ws.swarm.offer.order", format!("{}-th forwarded offer is offer #{} of the request", k, idx)));
                             }
                             // receiver = a stored other peer of this torrent owned by the addressed connection
                             let cand: Vec<[u8; 20]> = others.iter().filter(|p| model.owner(fam, &hash, p) == Some(*rc) && !used.contains(*p)).copied().collect();
                             if cand.is_empty() {
                                 let sig = if *rc == me { "ws.swarm.offer.to_sender" } else { "ws.swarm.offer.receiver_not_member" };
-                                return Err(fail("offers", sig, format!("offer #{} addressed to {:?}, which owns no (unused) other stored peer of this torrent/family", k, rc)));
+                                bail!(fail("offers", sig, format!("offer #{} addressed to {:?}, which owns no (unused) other stored peer of this torrent/family", k, rc)));
                             }
                             if cand.len() > 1 {
                                 shape.cnt("offer_receiver_ambiguous_connection_owns_several_peers");
@@ -389,7 +404,7 @@ fn run_history_inner(h: &History, shape: &mut Shape) -> Result<u64, Fail> {
                             match exp {
                                 AnswerExpectation::Forward(c) => {
                                     if !fwd_ok(c) {
-                                        return Err(fail("answers", "ws.swarm.answer.not_forwarded", format!("answer to an outstanding offer must reach {:?}; got {} answer message(s), {} error(s)", c, answers.len(), errors.len())));
+                                        bail!(fail("answers", "ws.swarm.answer.not_forwarded", format!("answer to an outstanding offer must reach {:?}; got {} answer message(s), {} error(s)", c, answers.len(), errors.len())));
                                     }
                                     model.consume(fam, &hash, &peer, &to_peer, &oidb);
                                     shape.ev(7);
@@ -398,7 +413,7 @@ fn run_history_inner(h: &History, shape: &mut Shape) -> Result<u64, Fail> {
                                 }
                                 AnswerExpectation::ErrorToSender => {
                                     if !answers.is_empty() {
-                                        return Err(fail("answers", "ws.swarm.answer.forwarded_without_offer", format!("answer forwarded to {:?} although no such offer is outstanding (never forwarded, already answered, expired by a clean, or other peer)", answers[0].0)));
+                                        bail!(fail("answers", "ws.swarm.answer.forwarded_without_offer", format!("answer forwarded to {:?} although no such offer is outstanding (never forwarded, already answered, expired by a clean, or other peer)", answers[0].0)));
                                     }
                                     expected_errors = 1;
                                     shape.ev(8);
@@ -407,7 +422,7 @@ fn run_history_inner(h: &History, shape: &mut Shape) -> Result<u64, Fail> {
                                 }
                                 AnswerExpectation::Nothing => {
                                     if !answers.is_empty() {
-                                        return Err(fail("answers", "ws.swarm.answer.forwarded_to_unstored", "answer forwarded although the addressed peer is not stored".into()));
+                                        bail!(fail("answers", "ws.swarm.answer.forwarded_to_unstored", "answer forwarded although the addressed peer is not stored".into()));
                                     }
                                     if !errors.is_empty() {
                                         // "an error reply to the answerer or nothing" - both allowed
@@ -418,7 +433,7 @@ fn run_history_inner(h: &History, shape: &mut Shape) -> Result<u64, Fail> {
                                 AnswerExpectation::EitherForwardOrError(c) => {
                                     if !answers.is_empty() {
                                         if !fwd_ok(c) {
-                                            return Err(fail("answers", "ws.swarm.answer.misrouted", format!("answer forwarded to {:?}, offerer's connection is {:?}", answers[0].0, c)));
+                                            bail!(fail("answers", "ws.swarm.answer.misrouted", format!("answer forwarded to {:?}, offerer's connection is {:?}", answers[0].0, c)));
                                         }
                                         model.consume(fam, &hash, &peer, &to_peer, &oidb);
                                     } else {
@@ -428,10 +443,10 @@ fn run_history_inner(h: &History, shape: &mut Shape) -> Result<u64, Fail> {
                                 }
                             }
                         } else if !answers.is_empty() {
-                            return Err(fail("answers", "ws.swarm.answer.spurious", "answer message produced without an answer in the request (or on stopped)".into()));
+                            bail!(fail("answers", "ws.swarm.answer.spurious", "answer message produced without an answer in the request (or on stopped)".into()));
                         }
                         if errors.len() != expected_errors || errors.iter().any(|(c, _)| *c != me) {
-                            return Err(fail("answers", "ws.swarm.error.unexpected", format!("{} error message(s) ({} expected), addressed to {:?}", errors.len(), expected_errors, errors.iter().map(|e| e.0).collect::<Vec<_>>())));
+                            bail!(fail("answers", "ws.swarm.error.unexpected", format!("{} error message(s) ({} expected), addressed to {:?}", errors.len(), expected_errors, errors.iter().map(|e| e.0).collect::<Vec<_>>())));
                         }
                         shape.ev(10 + *event + if seeder { 5 } else { 0 });
                         if stopped && prior_owner.is_some() {
@@ -466,16 +481,16 @@ fn run_history_inner(h: &History, shape: &mut Shape) -> Result<u64, Fail> {
                     None => {
                         // refused by the socket worker before it reaches storage; storage stays silent
                         if !out.is_empty() {
-                            return Err(fail("scrape", "ws.swarm.scrape.full_scrape_answered", "scrape without hashes answered by storage".into()));
+                            bail!(fail("scrape", "ws.swarm.scrape.full_scrape_answered", "scrape without hashes answered by storage".into()));
                         }
                     }
                     Some(hs) => {
                         if out.len() != 1 {
-                            return Err(fail("scrape", "ws.swarm.scrape.reply_count", format!("{} messages for one scrape", out.len())));
+                            bail!(fail("scrape", "ws.swarm.scrape.reply_count", format!("{} messages for one scrape", out.len())));
                         }
                         let (m, msg) = &out[0];
                         if conn_of_meta(m) != me || m.pending_scrape_id.map(|p| p.0) != Some((i % 200) as u8) {
-                            return Err(fail("routing", "ws.swarm.scrape.reply_misaddressed", "scrape reply not addressed to the sender / pending id lost".into()));
+                            bail!(fail("routing", "ws.swarm.scrape.reply_misaddressed", "scrape reply not addressed to the sender / pending id lost".into()));
                         }
                         let files = match msg {
                             OutMessage::ScrapeResponse(r) => &r.files,
@@ -494,10 +509,10 @@ fn run_history_inner(h: &History, shape: &mut Shape) -> Result<u64, Fail> {
                         for (k, st) in files.iter() {
                             let (s, l) = model.counts(fam, &k.0);
                             if !hs.contains(&k.0) {
-                                return Err(fail("scrape", "ws.swarm.scrape.unrequested", "scrape reply lists a torrent that was not requested".into()));
+                                bail!(fail("scrape", "ws.swarm.scrape.unrequested", "scrape reply lists a torrent that was not requested".into()));
                             }
                             if (st.complete, st.incomplete) != (s, l) {
-                                return Err(fail("counts", "ws.swarm.scrape.counts", format!("scrape lists {}/{} for a torrent with {}/{} stored peers", st.complete, st.incomplete, s, l)));
+                                bail!(fail("counts", "ws.swarm.scrape.counts", format!("scrape lists {}/{} for a torrent with {}/{} stored peers", st.complete, st.incomplete, s, l)));
                             }
                         }
                         shape.ev(30);
@@ -593,12 +608,12 @@ fn run_history_inner(h: &History, shape: &mut Shape) -> Result<u64, Fail> {
                 let mut got: Vec<Conn> = out.iter().filter(|(_, m)| matches!(m, OutMessage::OfferOutMessage(_))).map(|(m, _)| conn_of_meta(m)).collect();
                 got.sort();
                 if got != want {
-                    return Err(fail("membership", "ws.swarm.member_set", format!("observer's offers reached connections {:?}, stored peers belong to {:?}", got, want)));
+                    bail!(fail("membership", "ws.swarm.member_set", format!("observer's offers reached connections {:?}, stored peers belong to {:?}", got, want)));
                 }
                 for (_, m) in out.iter() {
                     if let OutMessage::AnnounceResponse(r) = m {
                         if (r.complete, r.incomplete) != (complete, incomplete) {
-                            return Err(fail("counts", "ws.swarm.announce.counts", format!("observer saw {}/{} reference {}/{}", r.complete, r.incomplete, complete, incomplete)));
+                            bail!(fail("counts", "ws.swarm.announce.counts", format!("observer saw {}/{} reference {}/{}", r.complete, r.incomplete, complete, incomplete)));
                         }
                     }
                 }
@@ -855,6 +870,7 @@ fn relevant(property: &str, clause: &str) -> bool {
 fn main() {
     let args = Args::parse();
     let property = args.property();
+    let _ = FOCUS.set(property.clone());
     vcore::quiet_panics();
     let mut report = Report::new(
         "ws_swarm",
